@@ -199,6 +199,121 @@ Proof.
   split; [exact I|]. intros ? ? H. injection H as _ <-. lia.
 Qed.
 
+
+
+(* ---- BGP-LS *)
+Lemma ls_first_ok tag n v : (n <= length v)%nat -> ls_first tag n v = Ok (firstn n v).
+Proof. intro H. unfold ls_first. destruct (Nat.ltb (length v) n) eqn:E; [apply PeanoNat.Nat.ltb_lt in E; lia|reflexivity]. Qed.
+
+Lemma ls_node_fold_nopanic : forall tl nd, nopanic (ls_node_fold tl nd).
+Proof.
+  induction tl as [|[t v] r IH]; intro nd; cbn [ls_node_fold]; [exact I|].
+  destruct (Nat.ltb (length v) 4) eqn:E; cbn [negb].
+  - rewrite !andb_false_r. destruct (t =? 515); apply IH.
+  - apply PeanoNat.Nat.ltb_ge in E. rewrite !andb_true_r, (ls_first_ok 60 4 v E). cbn [bind].
+    repeat match goal with |- nopanic (if ?b then _ else _) => destruct b end; apply IH.
+Qed.
+
+Lemma ls_link_tlvs_nopanic : forall tl, nopanic (ls_link_tlvs tl).
+Proof.
+  induction tl as [|[t v] r IH]; cbn [ls_link_tlvs]; [exact I|].
+  apply np_bind; [|intros x _; apply np_bind; [exact IH|intros; exact I]].
+  destruct ((t =? 258) && negb (Nat.ltb (length v) 8)) eqn:E1.
+  { apply andb_true_iff in E1. destruct E1 as [_ E1]. apply negb_true_iff, PeanoNat.Nat.ltb_ge in E1.
+    rewrite (ls_first_ok 61 4 v) by lia. cbn [bind]. rewrite (ls_first_ok 61 4 (skipn 4 v)) by (rewrite skipn_length; lia). exact I. }
+  destruct (((t =? 259) || (t =? 260)) && negb (Nat.ltb (length v) 4)) eqn:E2.
+  { apply andb_true_iff in E2. destruct E2 as [_ E2]. apply negb_true_iff, PeanoNat.Nat.ltb_ge in E2.
+    rewrite (ls_first_ok 62 4 v) by lia. exact I. }
+  destruct (((t =? 261) || (t =? 262)) && negb (Nat.ltb (length v) 16)) eqn:E3.
+  { apply andb_true_iff in E3. destruct E3 as [_ E3]. apply negb_true_iff, PeanoNat.Nat.ltb_ge in E3.
+    rewrite (ls_first_ok 63 16 v) by lia. exact I. }
+  destruct (t =? 263); exact I.
+Qed.
+
+Lemma ls_prefix_tlvs_nopanic : forall tl, nopanic (ls_prefix_tlvs tl).
+Proof.
+  induction tl as [|[t v] r IH]; cbn [ls_prefix_tlvs]; [exact I|].
+  apply np_bind; [|intros x _; apply np_bind; [exact IH|intros; exact I]].
+  destruct (t =? 263); [exact I|]. destruct v as [|v0 vr]; [exact I|].
+  destruct (t =? 264); [exact I|]. destruct (t =? 265); [|exact I].
+  destruct (Nat.ltb (nat_of (ceil8 v0)) (length (v0 :: vr))) eqn:E; [|exact I].
+  apply PeanoNat.Nat.ltb_lt in E. cbn [length] in E.
+  destruct (Nat.ltb (length vr) (nat_of (ceil8 v0))) eqn:E2; [apply PeanoNat.Nat.ltb_lt in E2; lia|exact I].
+Qed.
+
+Lemma ls_srv6_tlvs_nopanic : forall tl sids mts, nopanic (ls_srv6_tlvs tl sids mts).
+Proof.
+  induction tl as [|[t v] r IH]; intros sids mts; cbn [ls_srv6_tlvs]; [exact I|].
+  destruct ((t =? 518) && negb (Nat.ltb (length v) 20)) eqn:E1.
+  { apply andb_true_iff in E1. destruct E1 as [_ E1]. apply negb_true_iff, PeanoNat.Nat.ltb_ge in E1.
+    rewrite (ls_first_ok 65 2 v) by lia. cbn [bind].
+    rewrite (ls_first_ok 65 16 (skipn 4 v)) by (rewrite skipn_length; lia). cbn [bind]. apply IH. }
+  destruct (t =? 263); apply IH.
+Qed.
+
+Lemma ls_node_and_rest_nopanic d : nopanic (ls_node_and_rest d).
+Proof.
+  unfold ls_node_and_rest. destruct (ls_read_tlv d) as [[[t v] rest]|]; [|exact I].
+  destruct (negb _); [exact I|]. apply np_bind; [apply ls_node_fold_nopanic|intros; exact I].
+Qed.
+
+Lemma ls_decode_spec c :
+  nopanic (ls_decode c) /\ forall x c', ls_decode c = Ok (x, c') -> len c' < len c.
+Proof.
+  unfold ls_decode.
+  destruct (get16 c) as [[ty c1]|] eqn:E1; cbn [rm req bind]; [|split; [exact I|discriminate]]. apply get16_some in E1.
+  destruct (get16 c1) as [[ln c2]|] eqn:E2; cbn [rm req bind]; [|split; [exact I|discriminate]]. apply get16_some in E2.
+  destruct (take (nat_of ln) c2) as [[body c3]|] eqn:E3; cbn [rm req bind]; [|split; [exact I|discriminate]].
+  apply take_some in E3. destruct E3 as (L3 & _ & _ & _).
+  assert (Hc : len c3 < len c) by lia.
+  destruct (Nat.ltb (length body) 9) eqn:E9.
+  { split; [exact I|]. intros ? ? H. injection H as _ <-. exact Hc. }
+  apply PeanoNat.Nat.ltb_ge in E9.
+  destruct body as [|p b]; [cbn [length] in E9; lia|]. cbn [length] in E9.
+  rewrite (ls_first_ok 66 8 b) by lia. cbn [bind].
+  assert (Hfin : forall A (r : res A) (k : A -> lsnlri), nopanic r ->
+            nopanic (bind r (fun a => Ok (k a, c3))) /\
+            forall x c', bind r (fun a => Ok (k a, c3)) = Ok (x, c') -> len c' < len c).
+  { intros A r k Hr. destruct r as [a| |]; cbn [bind]; [|split; [exact I|discriminate]|destruct Hr].
+    split; [exact I|]. intros ? ? H. injection H as _ <-. exact Hc. }
+  destruct (ty =? 1).
+  { pose proof (ls_node_and_rest_nopanic (skipn 8 b)) as Hn.
+    destruct (ls_node_and_rest (skipn 8 b)) as [[nd r1]| |]; cbn [bind]; [|split; [exact I|discriminate]|destruct Hn].
+    split; [exact I|]. intros ? ? H. injection H as _ <-. exact Hc. }
+  destruct (ty =? 2).
+  { pose proof (ls_node_and_rest_nopanic (skipn 8 b)) as Hn.
+    destruct (ls_node_and_rest (skipn 8 b)) as [[l r1]| |]; cbn [bind]; [|split; [exact I|discriminate]|destruct Hn].
+    pose proof (ls_node_and_rest_nopanic r1) as Hn2.
+    destruct (ls_node_and_rest r1) as [[r r2]| |]; cbn [bind]; [|split; [exact I|discriminate]|destruct Hn2].
+    apply (Hfin _ _ (fun tl => LsLink p (be_of (firstn 8 b)) l r tl)). apply ls_link_tlvs_nopanic. }
+  destruct (_ || _).
+  { pose proof (ls_node_and_rest_nopanic (skipn 8 b)) as Hn.
+    destruct (ls_node_and_rest (skipn 8 b)) as [[nd r1]| |]; cbn [bind]; [|split; [exact I|discriminate]|destruct Hn].
+    apply (Hfin _ _ (fun tl => LsPrefix (ty =? 4) p (be_of (firstn 8 b)) nd tl)). apply ls_prefix_tlvs_nopanic. }
+  destruct (ty =? 6).
+  { pose proof (ls_node_and_rest_nopanic (skipn 8 b)) as Hn.
+    destruct (ls_node_and_rest (skipn 8 b)) as [[nd r1]| |]; cbn [bind]; [|split; [exact I|discriminate]|destruct Hn].
+    pose proof (ls_srv6_tlvs_nopanic (ls_tlvs (S (length r1)) r1) [] []) as Hs.
+    destruct (ls_srv6_tlvs _ [] []) as [[sids mts]| |]; cbn [bind]; [|split; [exact I|discriminate]|destruct Hs].
+    split; [exact I|]. intros ? ? H. injection H as _ <-. exact Hc. }
+  split; [exact I|]. intros ? ? H. injection H as _ <-. exact Hc.
+Qed.
+
+Lemma mup_decode_spec fam c n :
+  nopanic (mup_decode fam c n) /\ forall e c', mup_decode fam c n = Ok (e, c') -> len c' < len c.
+Proof.
+  unfold mup_decode.
+  destruct (n <? 4); [split; [exact I|discriminate]|].
+  destruct (take 4 c) as [[h c1]|] eqn:E1; cbn [rm req bind]; [|split; [exact I|discriminate]].
+  apply take_some in E1. destruct E1 as (L1 & Lh & _ & _).
+  destruct h as [|arch [|t1 [|t2 [|blen [|x h]]]]]; try (cbn [length] in Lh; lia).
+  destruct (_ || _); [split; [exact I|discriminate]|].
+  destruct (take (nat_of blen) c1) as [[body c2]|] eqn:E2; cbn [rm req bind]; [|split; [exact I|discriminate]].
+  apply take_some in E2.
+  destruct (mup_body _ _ body); split; try exact I; try discriminate.
+  intros ? ? H. injection H as _ <-. lia.
+Qed.
+
 Lemma fs_op_spec c :
   nopanic (fs_op c) /\ forall b v c', fs_op c = Ok (b, v, c') -> len c' + 2 <= len c.
 Proof.
@@ -345,6 +460,14 @@ Section NlriFacts.
     destruct (fam =? F_IPV6_FS); [apply Hfs|].
     destruct (fam =? F_IPV4_FSVPN); [apply Hfs|].
     destruct (fam =? F_IPV6_FSVPN); [apply Hfs|].
+    destruct (fam =? F_LS).
+    { destruct (ls_decode_spec c) as [Np Hr].
+      destruct (ls_decode c) as [[x c1]| |]; cbn [bind]; [|split; [exact I|discriminate]|destruct Np].
+      split; [exact I|]. intros ? ? H. injection H as _ <-. eapply Hr; reflexivity. }
+    destruct (_ || _).
+    { destruct (mup_decode_spec fam c n) as [Np Hr].
+      destruct (mup_decode fam c n) as [[e c1]| |]; cbn [bind]; [|split; [exact I|discriminate]|destruct Np].
+      split; [exact I|]. intros ? ? H. injection H as _ <-. eapply Hr; reflexivity. }
     destruct (is_other_family fam); [|split; [exact I|discriminate]].
     destruct (other_nlri fam is_reach c) as [c1|] eqn:Eo; [|split; [exact I|discriminate]].
     split; [exact I|]. intros ? ? H. injection H as _ <-. eapply other_consumes; eassumption.
